@@ -83,6 +83,12 @@ def below_tapes(rng, bound, tier):
         out.append(t + splitmix(rng, rng.randrange(0, 3)))
         if k == 1:
             out.append(t[:-1])                       # one word short of the accepted candidate
+    # long rejection runs: the loop must keep redrawing however often it is refused (no give-up / fallback
+    # after N rejections); one-word candidates keep these tapes short
+    if ln <= 2:
+        for k in (31, 32, 33, 63, 64, 65, 66, 100, 127, 128, 129, 257):
+            if tier == "thorough" or rng.randrange(4) == 0 or k in (64, 65):
+                out.append(adversarial(rng, bound, k) + splitmix(rng, rng.randrange(0, 2)))
     out.append([M32] * (ln * rng.randrange(1, 4) + rng.randrange(0, ln + 1)))   # endless rejection
     out.append([0] * ln)
     out.append(plain_tape(rng, rng.choice(["counter", "splitmix", "edges"]), ln * 6 + 1))
